@@ -166,7 +166,7 @@ func genDag(tp *simrt.Tape, o stepGenOpts) *DagSpec {
 			// the command exits at once but leaves a background process in its group that holds its output open
 			// (a repeating step is not signalled on stop, so it is left out here)
 			s.BgMs = pick(tp, 20000, 45000)
-			s.DurMs = []int{pick(tp, 0, 50)}
+			s.DurMs = []int{pick(tp, 0, 50, 4000, 9000)} // the command itself exits at once, or stays around with its child
 			s.OnTerm, s.FailFirst, s.RetryLimit = "exit", 0, -1
 		}
 		steps[i] = s
